@@ -9,6 +9,7 @@ import (
 
 	gohealth "github.com/InVisionApp/go-health/v2"
 	"github.com/f1bonacc1/process-compose/src/command"
+	"github.com/f1bonacc1/process-compose/src/health"
 	"github.com/f1bonacc1/process-compose/src/types"
 )
 
@@ -149,18 +150,11 @@ func verifBackoff(p *Process, d time.Duration) (time.Duration, bool) {
 	return fn(p.getName(), verifInst(p), d)
 }
 
-// VerifInjectProbe delivers one probe completion for the running instance of
-// `name` through the real Prober.healthCheckCompleted path. kind is "ready" or
-// "live". It returns false when there is no such instance or prober.
+// VerifInjectProbe delivers one probe completion for the running (or just finished) instance of
+// `name` through the real Prober.healthCheckCompleted path. kind is "ready" or "live".
+// It returns false when there is no such instance or prober.
 func (p *ProjectRunner) VerifInjectProbe(name string, kind string, ok bool, contiguousFailures int, errStr string) bool {
-	proc := p.getRunningProcess(name)
-	if proc == nil {
-		return false
-	}
-	prober := proc.readyProber
-	if kind == "live" {
-		prober = proc.liveProber
-	}
+	prober := p.verifProber(name, kind)
 	if prober == nil {
 		return false
 	}
@@ -175,6 +169,29 @@ func (p *ProjectRunner) VerifInjectProbe(name string, kind string, ok bool, cont
 	}
 	prober.VerifInject(state)
 	return true
+}
+
+func (p *ProjectRunner) verifProber(name string, kind string) *health.Prober {
+	proc := p.getRunningProcess(name)
+	if proc == nil {
+		proc = p.getDoneProcess(name)
+	}
+	if proc == nil {
+		return nil
+	}
+	if kind == "live" {
+		return proc.liveProber
+	}
+	return proc.readyProber
+}
+
+// VerifProberStopEpoch returns the number of effective Stop() calls on the prober of `name` (-1: none).
+func (p *ProjectRunner) VerifProberStopEpoch(name string, kind string) int64 {
+	prober := p.verifProber(name, kind)
+	if prober == nil {
+		return -1
+	}
+	return prober.VerifStopEpoch()
 }
 
 // VerifRegistries returns the names currently present in the running and done registries.
